@@ -139,7 +139,32 @@ func genSchema(repo string) *genFile {
 			}
 			t := exprText(c.Fun)
 			switch {
-			case t == "e.Encode" || t == "e.EncodeElement" || t == "e.EncodeToken":
+			case t == "e.EncodeElement" && len(c.Args) == 2:
+				// resolve a start element built in this function: x := xml.StartElement{Name: xml.Name{Local: "lit"}}
+				name := ""
+				if id, ok := c.Args[1].(*ast.Ident); ok {
+					ast.Inspect(fd.Body, func(m ast.Node) bool {
+						as, ok := m.(*ast.AssignStmt)
+						if !ok || len(as.Lhs) != 1 || exprText(as.Lhs[0]) != id.Name {
+							return true
+						}
+						ast.Inspect(as.Rhs[0], func(k ast.Node) bool {
+							if kv, ok := k.(*ast.KeyValueExpr); ok && exprText(kv.Key) == "Local" {
+								if lit, ok := kv.Value.(*ast.BasicLit); ok {
+									name, _ = strconv.Unquote(lit.Value)
+								}
+							}
+							return true
+						})
+						return true
+					})
+				}
+				if name != "" {
+					out = append(out, "e.EncodeElement("+exprText(c.Args[0])+", name:"+name+")")
+				} else {
+					out = append(out, exprText(c))
+				}
+			case t == "e.Encode" || t == "e.EncodeToken":
 				out = append(out, exprText(c))
 			case strings.HasPrefix(t, "marshalInner") || strings.HasSuffix(t, ".marshalInnerXML") || strings.HasSuffix(t, ".marshalInnerElementsXML"):
 				out = append(out, exprText(c))
